@@ -60,6 +60,7 @@ class ModeFlow:
         self.map_calls = 0
         self.spec_field = mangle(self.cn, "__circuit_spec")
         self.other: set[str] = set()  # names bound to *another* circuit (parameter / its copy)
+        self.origin: dict[str, frozenset] = {}  # name -> user parameters its value may derive from
 
     # -- helpers
     def is_self_field(self, e, name):
@@ -72,6 +73,7 @@ class ModeFlow:
         env = {}
         for p, q in SOURCES.get(self.fi.name, {}).items():
             env[p] = q
+            self.origin[p] = frozenset({p})
         a = self.fi.node.args
         for p in a.args:
             ts = self.ctx.ix.ann_types(self.fi.module, p.annotation)
@@ -96,11 +98,22 @@ class ModeFlow:
             out[k] = jq(a.get(k), b.get(k)) if (k in a and k in b) else (a.get(k) or b.get(k))
         return out
 
+    _in_branch = False
+
     def stmt(self, s, env):
         if isinstance(s, ast.Assign):
             q = self.ev(s.value, env)
+            self._pending = {}
             for t in s.targets:
-                self.assign(t, q, env, s)
+                if isinstance(t, (ast.Tuple, ast.List)) and isinstance(s.value, (ast.Tuple, ast.List)) and len(t.elts) == len(s.value.elts):
+                    quals = [self.ev(v, env) for v in s.value.elts]
+                    for x, qq in zip(t.elts, quals):
+                        self.assign(x, qq, env, s)
+                else:
+                    self.assign(t, q, env, s)
+            for name, o in self._pending.items():
+                old = self.origin.get(name, frozenset())
+                self.origin[name] = (old | o) if self._in_branch else o
             return env
         if isinstance(s, ast.AnnAssign):
             if s.value is not None:
@@ -119,8 +132,11 @@ class ModeFlow:
             return None
         if isinstance(s, ast.If):
             self.ev(s.test, env)
+            was = self._in_branch
+            self._in_branch = True
             a = self.block(s.body, dict(env))
             b = self.block(s.orelse, dict(env))
+            self._in_branch = was
             return self.join_env(a, b)
         if isinstance(s, ast.For):
             it = self.ev(s.iter, env)
@@ -158,9 +174,28 @@ class ModeFlow:
             return r
         return env
 
+    def origins_of(self, e) -> frozenset:
+        out = frozenset()
+        for x in ast.walk(e):
+            if isinstance(x, ast.Name) and x.id in self.origin:
+                out |= self.origin[x.id]
+        return out
+
     def assign(self, t, q, env, stmt, tuple_of=None):
         if isinstance(t, ast.Name):
             env[t.id] = q
+            val = getattr(stmt, "value", None)
+            if isinstance(stmt, ast.Assign) and val is not None:
+                if isinstance(stmt.targets[0], (ast.Tuple, ast.List)) and isinstance(val, (ast.Tuple, ast.List)) and len(val.elts) == len(stmt.targets[0].elts):
+                    for tt, vv in zip(stmt.targets[0].elts, val.elts):
+                        if tt is t:
+                            self._pending = getattr(self, "_pending", {})
+                            self._pending[t.id] = self.origins_of(vv)
+                else:
+                    # joins accumulate (flow-insensitive union is enough for an orientation rule)
+                    new = self.origins_of(val)
+                    old = self.origin.get(t.id, frozenset())
+                    self.origin[t.id] = (old | new) if self._in_branch else new
         elif isinstance(t, (ast.Tuple, ast.List)):
             # (k, v) from dict.items() ; (i, x) from enumerate
             if isinstance(q, tuple) and q[0] == "pair":
@@ -386,6 +421,12 @@ class ModeFlow:
                 if i < len(arg.args):
                     q = self.ev(arg.args[i], env)
                     self.sink_full(q, arg.args[i], f"mode argument {i} of {kind} recorded in the circuit", call)
+            if kind == "BeamSplitter" and len(arg.args) >= 2 and self.fi.name == "bs":
+                o0, o1 = self.origins_of(arg.args[0]), self.origins_of(arg.args[1])
+                good = "mode_2" not in o0 and o0 == frozenset({"mode_1"}) and "mode_2" in o1
+                self.res.add(good, "A6-orientation-preserved", f"{self.fi.qualname}:BeamSplitter(mode_1, mode_2)", self.fi.site(arg), self.fi.qualname,
+                             "the first mode of the recorded beam splitter derives from the caller's mode_1 only, the second from mode_2",
+                             f"the recorded beam splitter's first mode may derive from {sorted(o0)} and its second from {sorted(o1)}: the 'H' convention is not symmetric in its two modes, so re-ordering them changes the matrix", construct=src(arg)[:120])
 
 
 def _load(t):
@@ -432,6 +473,10 @@ class ValidatedBeforeWrite(MustWalk):
                 names = {x.id for x in ast.walk(s.iter) if isinstance(x, ast.Name)} - {"self"}
                 out = out | names
             return out
+        if isinstance(s, ast.Assign) and len(s.targets) == 1 and isinstance(s.targets[0], (ast.Tuple, ast.List)) and isinstance(s.value, (ast.Tuple, ast.List)) and len(s.value.elts) == len(s.targets[0].elts) and all(isinstance(x, ast.Name) for x in list(s.value.elts) + list(s.targets[0].elts)):
+            was = {t.id for t, v in zip(s.targets[0].elts, s.value.elts) if st is not None and v.id in st}
+            out = super().stmt(s, st)
+            return (out | was) if out is not None else out
         if isinstance(s, ast.Assign) and len(s.targets) == 1 and isinstance(s.targets[0], ast.Name) and isinstance(s.value, ast.Name):
             was = st is not None and s.value.id in st
             out = super().stmt(s, st)
